@@ -174,7 +174,7 @@ func TestC05_FailedTxOnlyChargesFee(t *testing.T) {
 		var txs []*types.Transaction
 		for j := 0; j < nTx; j++ {
 			var sp c05TxSpec
-			sp.Kind = rapid.SampledFrom([]string{"transfer", "transfer", "transfer", "transfer+tail", "transfer+tail", "transfer+tail", "badargs", "random"}).Draw(t, "kind")
+			sp.Kind = rapid.SampledFrom([]string{"transfer", "transfer", "transfer", "transfer+tail", "transfer+tail", "transfer+tail", "badargs", "random", "create+fail"}).Draw(t, "kind")
 			nSig := rapid.IntRange(1, 3).Draw(t, "nsig")
 			perm := rapid.Permutation([]int{0, 1, 2, 3, 4, 5}).Draw(t, "signers")
 			sp.Signers = perm[:nSig]
@@ -254,6 +254,28 @@ func TestC05_FailedTxOnlyChargesFee(t *testing.T) {
 					case "pad2k":
 						code = append(code, bytes.Repeat([]byte{0x61}, 2100)...)
 					}
+				}
+			case "create+fail":
+				// contract-level write (Ontology.Contract.Create puts a contract record through the
+				// tx cache) followed by a failure: desc, email, author, version, name, vmtype, code
+				cc := rapid.SliceOfN(rapid.Byte(), 1, 12).Draw(t, "ccode")
+				a := &c02Asm{}
+				a.pushBytes([]byte("d")).pushBytes([]byte("e")).pushBytes([]byte("a")).pushBytes([]byte("v")).pushBytes([]byte("n")).pushInt(1).pushBytes(cc)
+				a.syscall("Ontology.Contract.Create").op(0x75)
+				sp.Tail = rapid.SampledFrom([]string{"throw", "div0", "badop", "none"}).Draw(t, "ctail")
+				switch sp.Tail {
+				case "throw":
+					a.op(0xF0)
+				case "div0":
+					a.op(0x51).op(0x00).op(0x96)
+				case "badop":
+					a.op(0xFE)
+				}
+				code = a.b
+				sp.Raw = cc
+				sp.GasLimit = 30000000
+				if sp.GasPrice > 1 {
+					sp.GasPrice = 1
 				}
 			case "badargs":
 				method := rapid.SampledFrom([]string{"transfer", "approve", "transferFrom", "nosuchmethod", "balanceOf"}).Draw(t, "method")
@@ -358,7 +380,7 @@ func TestC05_FailedTxOnlyChargesFee(t *testing.T) {
 				}
 				ev.Class("failed")
 				wrote := false
-				if sp.Kind == "transfer+tail" || (sp.Kind == "transfer" && len(sp.States) > 1) {
+				if sp.Kind == "transfer+tail" || sp.Kind == "create+fail" || (sp.Kind == "transfer" && len(sp.States) > 1) {
 					wrote = true // the script performed (or attempted) balance writes before the failure point
 					ev.Class("failed:after-write")
 				}
